@@ -260,6 +260,23 @@ def r4_edge_update_replaces_exactly_one_edge(ctx, rid):
             if isinstance(v, ast.ListComp) and isinstance(v.elt, ast.IfExp) and len(v.generators) == 1 and is_edges(v.generators[0].iter) \
                     and isinstance(v.generators[0].target, ast.Name):
                 sites.append((st, v.elt.test, v.generators[0].target.id))
+            elif isinstance(v, ast.Name):
+                # accumulation: `L = []; for e in self.edges: L.append(new if <test> else e)` (or if/else appends); `self.edges = L`
+                found = False
+                for loop in walk_shallow(f.node):
+                    if not (isinstance(loop, ast.For) and isinstance(loop.target, ast.Name) and is_edges(loop.iter)):
+                        continue
+                    elem = loop.target.id
+                    apps = [c for b in loop.body for c in ast.walk(b) if isinstance(c, ast.Call) and isinstance(c.func, ast.Attribute)
+                            and c.func.attr == "append" and isinstance(c.func.value, ast.Name) and c.func.value.id == v.id and len(c.args) == 1]
+                    if len(apps) == 1 and isinstance(apps[0].args[0], ast.IfExp):
+                        sites.append((st, apps[0].args[0].test, elem))
+                        found = True
+                    elif len(apps) == 2 and len(loop.body) == 1 and isinstance(loop.body[0], ast.If) and loop.body[0].orelse:
+                        sites.append((st, loop.body[0].test, elem))
+                        found = True
+                if not found:
+                    raise AnalysisError(f"{rid}: unrecognised edge replacement `{norm(st)}`")
             else:
                 raise AnalysisError(f"{rid}: unrecognised edge replacement `{norm(st)}`")
         elif isinstance(st, ast.Assign) and len(st.targets) == 1 and isinstance(st.targets[0], ast.Subscript) and is_edges(st.targets[0].value):
@@ -305,8 +322,11 @@ def r5_cached_defaults_come_from_the_template(ctx, rid):
     override from those cached defaults.  Each cached default must therefore be the template's own declared value (taken from
     self.variables), never the per-call `values` argument: otherwise the first node's override becomes the default of every
     later node that shares the operator (and a Python/YAML definition differs from its to_yaml round trip)."""
+    from engine.inline import inlined
+    from engine.util import single_def_value
     eff = ctx.effects
-    f = ctx.repo.get_func(FO, "OperatorTemplate.apply")
+    f0 = ctx.repo.get_func(FO, "OperatorTemplate.apply")
+    f = inlined(ctx, f0)            # the instantiation (cache miss) may live in a private helper
     if "values" not in f.params:
         raise AnalysisError(f"{rid}: OperatorTemplate.apply lost its `values` parameter")
     # the dict that is cached: second component of the tuple stored into self.cache[key]
@@ -314,10 +334,19 @@ def r5_cached_defaults_come_from_the_template(ctx, rid):
               and isinstance(st.targets[0].value, ast.Attribute) and st.targets[0].value.attr == "cache"]
     if len(stores) != 1 or not (isinstance(stores[0].value, ast.Tuple) and len(stores[0].value.elts) == 2 and isinstance(stores[0].value.elts[1], ast.Name)):
         raise AnalysisError(f"{rid}: the cache store `self.cache[key] = (instance, defaults)` was not recognised")
-    dname = stores[0].value.elts[1].id
+    def root(nm):
+        """follow plain local aliases `a = b` back to the name the container was created under"""
+        for _ in range(6):
+            v = single_def_value(ctx, f, nm) if isinstance(nm, ast.Name) else None
+            if isinstance(v, ast.Name):
+                nm = v
+            else:
+                break
+        return nm.id if isinstance(nm, ast.Name) else None
+    dname = root(stores[0].value.elts[1])
     an = analyse(eff, f, None)
     writes = [st for st in walk_shallow(f.node) if isinstance(st, ast.Assign) and len(st.targets) == 1 and isinstance(st.targets[0], ast.Subscript)
-              and isinstance(st.targets[0].value, ast.Name) and st.targets[0].value.id == dname]
+              and isinstance(st.targets[0].value, ast.Name) and root(st.targets[0].value) == dname]
     if not writes:
         raise AnalysisError(f"{rid}: no store into the cached defaults `{dname}` found")
     for w in writes:
@@ -336,6 +365,13 @@ def r5_cached_defaults_come_from_the_template(ctx, rid):
     fills = [st for st in walk_shallow(f.node) if isinstance(st, ast.Assign) and len(st.targets) == 1 and isinstance(st.targets[0], ast.Subscript)
              and isinstance(st.targets[0].value, ast.Name) and st.targets[0].value.id == "values"]
     cfg = ctx.cfg(f)
+    for c in walk_shallow(f.node):
+        if isinstance(c, ast.Call) and isinstance(c.func, ast.Attribute) and isinstance(c.func.value, ast.Name) and c.func.value.id == "values":
+            if c.func.attr == "setdefault":
+                ctx.ok(rid, f0, c, "a default is filled in only where the caller passed no value (setdefault)", nontrivial=False,
+                       label=f"fill by setdefault L{getattr(c, 'lineno', 0) and ''}{norm(c)[:60]}")
+            elif c.func.attr == "update":
+                ctx.violation(rid, f0, c, "`values.update(...)` overwrites the values the caller passed for this node with defaults")
     for st in fills:
         guards = [d for d in cfg.dominators(st) if isinstance(d, ast.If) and any(contains(b, st) for b in d.body)
                   and isinstance(d.test, ast.Compare) and isinstance(d.test.ops[0], ast.NotIn) and ast.unparse(d.test.comparators[0]) == "values"]
